@@ -48,6 +48,8 @@ def run_variant(args):
         chk = Check(prop, "quick", ctx.repo, quiet=True)
         try:
             mod.run(ctx, chk)
+            from ..core.unconfirmed import withdraw_unconfirmed
+            withdraw_unconfirmed(ctx, chk)
         except AnalysisError as e:
             chk.error(e.rule, e.reason)
         listed, unlisted, stale = chk.classify()
